@@ -70,6 +70,8 @@ def parse_block(lines):
             r.setdefault("SPECDIAG", []).append([(x.split(":")[0],) + tuple(y for y in x.split(":")[1].split("|")) for x in t[2:]])
         elif tag == "SPECIAL":
             r.setdefault("SPECIAL", []).append([(x.split(":")[0],) + tuple(frac(y) for y in x.split(":")[1].split("|")) for x in t[2:]])
+        elif tag == "GMEVEC":         # GMEVEC <operator> <compared> <differing> <first difference>
+            r.setdefault("GMEVEC", []).append((t[1], int(t[2]), int(t[3]), " ".join(t[4:])))
         elif tag == "ERR":
             r["ERR"] = " ".join(t[1:])
     return r
@@ -382,6 +384,14 @@ def run(chk):
                              "X = %s = %s read through %s; %s (expected = same expression of the Jordan-Wigner matrices of A and B; the other reading path gives %s)"
                              % (label[t], fmt_poly(pi.get(t)), path, d,
                                 other.get(tuple(int(x) for x in d.split(">")[0][1:].replace("X|", "").split("|")), 0) if isinstance(other, dict) else "?"), True)
+            # ---- the vector form getMatrixElement(bra, ket, states) with unit vectors over state lists in any order ----
+            for opn, total, bad, first in pi.get("GMEVEC", []):
+                chk.extra["vector_form_elements_compared"] = chk.extra.get("vector_form_elements_compared", 0) + total
+                if bad:
+                    fail("matrix of %s via getMatrixElement(bra-vector, ket-vector, states)" % opn, case,
+                         "X = %s: with unit vectors over a list of basis states, %d of %d (ordering, bra, ket) give a value different from "
+                         "getMatrixElement(states[bra], states[ket]) (which agrees with the Jordan-Wigner matrix); first: %s"
+                         % (opn, bad, total, first), True)
             # ---- aliased in-place expressions: S is a copy of A, the right-hand side is S itself ----
             c0 = pm["A"][0][1] if isinstance(pm.get("A"), list) and pm["A"] else None
             exp, lazy = alias_expected(ma, c0)
